@@ -22,7 +22,8 @@ const ms = time.Millisecond
 // ===========================================================================
 // Delay
 
-var delayWaits = []time.Duration{5 * ms, 20 * ms, 50 * ms}
+// the last two (random and fixed cases only) are not whole milliseconds
+var delayWaits = []time.Duration{5 * ms, 20 * ms, 50 * ms, 900 * time.Microsecond, 7*ms + 300*time.Microsecond}
 
 // DelayOp: one Delay(wait, fn) started Gap after the previous one; Stop: 0 none,
 // 1 = Stop 1ns before it is due, 2 = exactly when due, 3 = 1ns after, 4 = at half time.
@@ -49,7 +50,7 @@ func delayEnum(s pbt.Src, thorough bool) DelayCase {
 
 func delayGen(s pbt.Src, thorough bool) DelayCase {
 	return DelayCase{Ops: pbt.Seq(s, 1, 12, func(s pbt.Src) DelayOp {
-		return DelayOp{Gap: s.Intn(40), Wait: s.Intn(3), Stop: s.Intn(5)}
+		return DelayOp{Gap: s.Intn(40), Wait: s.Intn(len(delayWaits)), Stop: s.Intn(5)}
 	})}
 }
 
@@ -67,7 +68,7 @@ func delayProp(c DelayCase, r *pbt.R) error {
 	at := time.Duration(0)
 	for i, op := range c.Ops {
 		at += time.Duration(op.Gap) * ms
-		rc := &rec{start: at, wait: delayWaits[op.Wait], stopAt: -1}
+		rc := &rec{start: at, wait: delayWaits[((op.Wait%len(delayWaits))+len(delayWaits))%len(delayWaits)], stopAt: -1}
 		switch op.Stop {
 		case 1:
 			rc.stopAt = at + rc.wait - 1
@@ -132,7 +133,8 @@ func delayProp(c DelayCase, r *pbt.R) error {
 // ===========================================================================
 // Debounce
 
-var debWaits = []time.Duration{5 * ms, 20 * ms}
+// the third one (random and fixed cases only) is not a whole number of milliseconds
+var debWaits = []time.Duration{5 * ms, 20 * ms, 6*ms + 700*time.Microsecond}
 
 // DebEv: an event Gap after the previous one. Gap is an index into a table of
 // gaps relative to the wait: 0, 1ms, wait-1ms, wait, wait+1ms, 3*wait.
@@ -181,7 +183,7 @@ func debEnum(s pbt.Src, thorough bool) DebCase {
 }
 
 func debGen(s pbt.Src, thorough bool) DebCase {
-	c := DebCase{Wait: s.Intn(2), Slow: s.Intn(3)}
+	c := DebCase{Wait: s.Intn(len(debWaits)), Slow: s.Intn(3)}
 	w := debWaits[c.Wait]
 	c.Evs = pbt.Seq(s, 1, 50, func(s pbt.Src) DebEv {
 		ev := DebEv{Kind: 0}
@@ -214,7 +216,7 @@ func debGen(s pbt.Src, thorough bool) DebCase {
 }
 
 func debProp(c DebCase, r *pbt.R) error {
-	wait := debWaits[c.Wait]
+	wait := debWaits[((c.Wait%len(debWaits))+len(debWaits))%len(debWaits)]
 	debounced, cancel := gogu.NewDebounce(wait)
 	slow := debSlow(wait, c.Slow%3)
 	t0 := time.Now()
@@ -697,14 +699,15 @@ func TestProp(t *testing.T) {
 	pbt.Run(t, "C20",
 		&pbt.Check[DelayCase]{
 			Name: "delay",
-			Rule: "1..3 (thorough 4; random 12) concurrent gogu.Delay timers in virtual time, wait in {5,20,50}ms, optional Stop 1ns before / exactly at / 1ns after the due instant or at half time; runs at most once, never before call+wait, never when stopped before due, always when not stopped in time. Non-trivial = a Stop before/after due or >= 2 delays.",
+			Rule: "1..3 (thorough 4; random 12) concurrent gogu.Delay timers in virtual time, wait in {5,20,50}ms (random and fixed cases also 900us and 7.3ms: waits that are not whole milliseconds), optional Stop 1ns before / exactly at / 1ns after the due instant or at half time; runs at most once, never before call+wait, never when stopped before due, always when not stopped in time. Non-trivial = a Stop before/after due or >= 2 delays.",
 			Enum: delayEnum, Gen: delayGen, Prop: delayProp,
 			OutOfEnum:  func(c DelayCase, th bool) bool { return len(c.Ops) > 4 },
 			RapidQuick: 300, RapidThorough: 5000, Bubble: true,
+			Fixed: []DelayCase{{Ops: []DelayOp{{Wait: 3}}}, {Ops: []DelayOp{{Wait: 4}, {Gap: 1, Wait: 3, Stop: 1}}}},
 		},
 		&pbt.Check[DebCase]{
 			Name: "debounce",
-			Rule: "event timelines on one NewDebounce(wait in {5,20}ms) in virtual time: single calls, 2..5 goroutines calling at the same instant, cancel; every debounced function takes {0, wait/2, 2*wait+1ms} of virtual time once it runs (so later calls and cancels also arrive while one is running); gaps {0,1ms,wait-1ms,wait,wait+1ms,3*wait} enumerated for 1..4 (thorough 5) events, random bursts of up to 50 events with gaps below/around/above the wait. " +
+			Rule: "event timelines on one NewDebounce(wait in {5,20}ms; random cases also 6.7ms) in virtual time: single calls, 2..5 goroutines calling at the same instant, cancel; every debounced function takes {0, wait/2, 2*wait+1ms} of virtual time once it runs (so later calls and cancels also arrive while one is running); gaps {0,1ms,wait-1ms,wait,wait+1ms,3*wait} enumerated for 1..4 (thorough 5) events, random bursts of up to 50 events with gaps below/around/above the wait. " +
 				"Oracle: a function never runs before its own call + wait nor less than the wait after any earlier call; at most once; of the calls made at one instant at most one runs; not if another call or a cancel arrives strictly inside the wait; it does run (within the closing quiescence period) if nothing arrives within the wait (an event exactly at the due instant: either). " +
 				"Non-trivial = a burst with superseded calls that fired once, a cancel, or >= 2 bursts.",
 			Enum: debEnum, Gen: debGen, Prop: debProp,
